@@ -730,6 +730,80 @@ func TestVerifC11InProcess(t *testing.T) {
 			}(v, n)
 		}
 	}
+	// an in-process *reference* server (stderr piped to the runner) whose implementation returns an error - before it
+	// answers the start request, or later, once it has been asked to stop: the one line that says why reaches the
+	// error printer like any other stderr output, and every case still has exactly one outcome
+	for _, when := range []string{"before-answer", "at-stop"} {
+		wg.Add(1)
+		go func(when string) {
+			defer wg.Done()
+			n := 2
+			var testCases []*conformancev1.TestCase
+			expected := map[string]*conformancev1.ClientResponseResult{}
+			for i := 0; i < n; i++ {
+				exp := &conformancev1.ClientResponseResult{Payloads: []*conformancev1.ConformancePayload{{Data: []byte(fmt.Sprintf("payload-%d", i))}}}
+				testCases = append(testCases, &conformancev1.TestCase{Request: &conformancev1.ClientCompatRequest{TestName: vfC11Name(i)}, ExpectedResponse: exp})
+				expected[vfC11Name(i)] = exp
+			}
+			const why = "verif: listen tcp 127.0.0.1:4242: bind: address already in use"
+			server := func(ctx context.Context, _ []string, in io.ReadCloser, out, _ io.WriteCloser) error {
+				req := &conformancev1.ServerCompatRequest{}
+				if err := internal.ReadDelimitedMessage(in, req, "runner", 10*time.Second, 1<<20); err != nil {
+					return err
+				}
+				if when == "before-answer" {
+					return errors.New(why)
+				}
+				if err := internal.WriteDelimitedMessage(out, &conformancev1.ServerCompatResponse{Host: "127.0.0.1", Port: 1}); err != nil {
+					return err
+				}
+				<-ctx.Done()
+				return errors.New(why)
+			}
+			results := newResults(n, &testTrie{}, &testTrie{}, nil)
+			client := &vfFakeClient{c: vfC11Case{N: n, Delivery: "sync"}, expected: expected}
+			errP := &vfC11Printer{}
+			done := make(chan struct{})
+			go func() {
+				defer close(done)
+				runTestCasesForServer(context.Background(), false, true, serverInstance{}, testCases, nil, nil, runInProcess([]string{"verif-failing-server"}, server), &vfC11Printer{}, errP, results, client, nil, false)
+			}()
+			c := map[string]any{"batch": n, "server": "in-process reference server that fails " + when}
+			var viol error
+			select {
+			case <-done:
+			case <-time.After(2*gracefulShutdownPeriod + 15*time.Second):
+				viol = verifkit.Violf("in-process-server-hang", "batch against an in-process server that fails %s did not end", when)
+			}
+			if viol == nil {
+				results.mu.Lock()
+				if len(results.outcomes) != n {
+					viol = verifkit.Violf("in-process-outcome", "server fails %s: %d outcomes for %d cases", when, len(results.outcomes), n)
+				}
+				results.mu.Unlock()
+			}
+			if viol == nil {
+				errP.mu.Lock()
+				found := false
+				for _, l := range errP.lines {
+					if strings.Contains(l, why) {
+						found = true
+					}
+				}
+				lines := append([]string{}, errP.lines...)
+				errP.mu.Unlock()
+				if !found {
+					viol = verifkit.Violf("in-process-error-lost", "the in-process reference server failed (%s) with %q; that line never reached the error printer, which got %q", when, why, lines)
+				}
+			}
+			mu.Lock()
+			en.Rec.Observe(c, []string{"fails-" + when}, true)
+			if viol != nil {
+				en.Fail(c, viol)
+			}
+			mu.Unlock()
+		}(when)
+	}
 	// the same with a real OS process as the server (the --server command path): it answers the start request and then
 	// ignores the request to stop; the runner has to get rid of it and the batch has to end
 	wg.Add(1)
